@@ -35,6 +35,7 @@ type LockAnalysis struct {
 	callbacks map[ssa.CallInstruction][]*ssa.Function
 	callersOf map[*ssa.Function][]lockCallSite
 	releases  []lockOp // all release operations (for C05.pair)
+	leaks     map[*ssa.Function]map[ssa.Instruction]lockset // returns that still hold a lock acquired by a primitive op of the same function
 	iter      int
 }
 
@@ -143,7 +144,7 @@ func (la *LockAnalysis) primitive(callee *ssa.Function) opKind {
 func newLockAnalysis(p *Program, callbacks map[ssa.CallInstruction][]*ssa.Function) *LockAnalysis {
 	la := &LockAnalysis{p: p, idx: map[string]int{}, entry: map[*ssa.Function]lockset{}, at: map[ssa.Instruction]lockset{},
 		exit: map[*ssa.Function]lockset{}, exitAll: map[*ssa.Function]lockset{}, acq: map[*ssa.Function]lockset{}, rel: map[*ssa.Function]lockset{},
-		roots: map[*ssa.Function]bool{}, callbacks: callbacks, callersOf: map[*ssa.Function][]lockCallSite{}}
+		roots: map[*ssa.Function]bool{}, callbacks: callbacks, callersOf: map[*ssa.Function][]lockCallSite{}, leaks: map[*ssa.Function]map[ssa.Instruction]lockset{}}
 	la.run()
 	return la
 }
@@ -519,6 +520,16 @@ func (la *LockAnalysis) analyze(fn *ssa.Function) bool {
 				}
 			case *ssa.Return:
 				exitAll &= cur
+				if cur != topLocks {
+					if lk := cur & la.primitiveAcq(fn) &^ la.entry[fn]; lk != 0 {
+						if la.leaks[fn] == nil {
+							la.leaks[fn] = map[ssa.Instruction]lockset{}
+						}
+						la.leaks[fn][x] = lk
+					} else if la.leaks[fn] != nil {
+						delete(la.leaks[fn], x)
+					}
+				}
 				success := true
 				if returnsError(fn) {
 					last := x.Results[len(x.Results)-1]
@@ -665,4 +676,26 @@ func (la *LockAnalysis) EntryNames(fn *ssa.Function) string {
 		return "⊤(no callers)"
 	}
 	return strings.Join(la.Names(la.entry[fn]), ",")
+}
+
+// primitiveAcq: locks for which fn itself contains a primitive acquisition (lock, forceLock, tryLock, Mutex.Lock).
+func (la *LockAnalysis) primitiveAcq(fn *ssa.Function) lockset {
+	var out lockset
+	for _, b := range fn.Blocks {
+		for _, in := range b.Instrs {
+			c, ok := in.(*ssa.Call)
+			if !ok {
+				continue
+			}
+			if f, ok := c.Call.Value.(*ssa.Function); ok {
+				switch la.primitive(f) {
+				case opAcquire, opAcquireOnNil, opAcquireOnTrue:
+					if k := la.lockKey(c.Call.Args[0]); k != "" {
+						out |= la.bit(k)
+					}
+				}
+			}
+		}
+	}
+	return out
 }
